@@ -797,7 +797,7 @@ def operator(name, sites, apply):
 	OPERATORS.append((name, sites, apply))
 
 
-for _width in ('24', '7', '128'):
+for _width in ('24', '7', '128', '12', '17', '33', '65', '9', '15', '08', '0', '1', '63', '016'):
 	operator(f'width-{_width}', _sites(lambda i, c: bool(WIDTH_LINE.match(c))),
 		_edit(lambda i, c, w=_width: re.sub(r'[0-9]+$', w, c)))
 operator('type-name-lower-case', _sites(lambda i, c: not i and bool(TYPE_DECL.match(c))),
